@@ -78,7 +78,8 @@ pub struct C13Case {
     pub tool: Option<crate::clifam::RefuseTool>,
     /// write-option variant: 0 staging in memory; 1 temporary files, uncompressed; 2 channel
     /// capacity 1; 3 channel capacity 1, temporary files, manual zoom list; 4 one item per section;
-    /// 5 index block size 1; 6 index block size 0; 7 manual zoom list [0, 4]
+    /// 5 index block size 1; 6 index block size 0; 7 manual zoom list [0, 4]; 8 items per section 0;
+    /// 9 a hundred automatic zoom levels; 10 initial zoom size u32::MAX
     #[serde(default)]
     pub ovar: u8,
 }
@@ -328,7 +329,11 @@ fn c13_write(c: &C13Case, tmpdir: &std::path::Path) -> Result<(), String> {
         // option values at the edge of their domains: an index fan-out of 1 and of 0, a zoom size of 0
         5 => opts.block_size = 1,
         6 => opts.block_size = 0,
-        _ => opts.manual_zoom_sizes = Some(vec![0, 4]),
+        7 => opts.manual_zoom_sizes = Some(vec![0, 4]),
+        8 => opts.items_per_slot = 0,
+        // automatic zoom lists whose sizes (initial x 4^k) pass u32::MAX
+        9 => opts.max_zooms = 100,
+        _ => opts.initial_zoom_size = u32::MAX,
     }
     if let Some(Degenerate::NoValues { nchrom }) = &c.valid {
         let chroms: Vec<String> = chrom_names(c.nchrom)[..*nchrom].to_vec();
@@ -521,7 +526,7 @@ impl Check for C13 {
     fn cases(&self, tier: Tier) -> Box<dyn Iterator<Item = C13Case> + '_> {
         let quick = tier == Tier::Quick;
         let rts: Vec<Rt> = if quick { vec![Rt::Current, Rt::Multi(2)] } else { vec![Rt::Current, Rt::Multi(2), Rt::Multi(4)] };
-        let ovars: Vec<u8> = if quick { vec![0, 2, 3, 5, 6, 7] } else { vec![0, 1, 2, 3, 4, 5, 6, 7] };
+        let ovars: Vec<u8> = if quick { vec![0, 2, 3, 5, 6, 7, 8, 9, 10] } else { vec![0, 1, 2, 3, 4, 5, 6, 7, 8, 9, 10] };
         let mut v = vec![];
         for bed in [false, true] {
             for (viol, iter_ok) in c13_viols(bed) {
